@@ -172,19 +172,22 @@ impl Tree {
     }
 
     pub fn append_pre_header(&self, target_id: NodeId, new: Tree) -> Tree {
-        let mut children = self.children.clone();
+        // descend into the existing children only: the inserted tree may itself contain the target
+        // (a note that references itself), and descending into it would never end
+        let mut children: Vec<Tree> = self
+            .children
+            .iter()
+            .map(|child| child.append_pre_header(target_id, new.clone()))
+            .collect();
 
         if self.id_eq(target_id) {
-            children.insert(self.pre_sub_header_position(), new.clone());
+            children.insert(self.pre_sub_header_position(), new);
         }
 
         Tree {
             id: self.id,
             node: self.node.clone(),
-            children: children
-                .into_iter()
-                .map(|child| child.append_pre_header(target_id, new.clone()))
-                .collect(),
+            children,
         }
     }
 
